@@ -367,16 +367,16 @@ PROPS["C02"] = {
          "thorough": []},
         {"dir": "consensus",
          "quick": ["VP_C02_Base", "VP_C02_Step_R1_vote_lockfocus", "VP_C02_Step_R1_vote_polproposal", "VP_C02_Step_R2_vote_lockfocus_top", "VP_C02_Step_R1_timeout_lockfocus", "VP_C02_Step_R1_part_lockfocus", "VP_C02_Step_R1_txs"],
-         "thorough": ["VP_C02_Step_R1_vote_locked", "VP_C02_Step_R1_timeout", "VP_C02_Step_R1_proposal", "VP_C02_Step_R1_part"]},
+         "thorough": ["VP_C02_Step_R1_vote_locked", "VP_C02_Step_R1_vote_unlocked", "VP_C02_Step_R1_timeout", "VP_C02_Step_R1_proposal", "VP_C02_Step_R1_part", "VP_C02_Step_R2_vote_lockfocus"]},
     ],
     "bounds": {
         "inductive step of the real consensus.State": "one arbitrary event (vote of any type/round/block; timeout; proposal; block part; txs-available) applied by the real handleMsg/handleTimeout/handleTxsAvailable to a state whose Round (0..R), Step (all 8), LockedRound, ValidRound, CommitRound, TriggeredTimeoutPrecommit, vote-set summary for rounds 0..R+1 and signing ghost are symbolic and constrained only by the invariant INV; INV is asserted again afterwards and on the NewState state (base), so every reachable state of a height is covered for rounds <= R; R=1 (thorough: also R=2 for votes); obligations L1-L5 asserted inside the signer at every signature",
         "vote-set contract": "the quorum facts the step harness assumes about TwoThirdsMajority / HasTwoThirdsAny are those C01's vote-set entries decide on the real types.VoteSet with symbolic powers (two of them are run here too)",
-        "slices": "quick entries cover the pre-state slice 'locked on A, valid block A, proposal block none/A, no proposal message, votes of the current height for nil/A/B' for votes (R=1, and R=2 with the node in round 2; plus the slice 'not locked, complete proposal block A with a proposal message of any POL round'), timeouts and parts, and every shape for txs-available; thorough entries cover every shape for timeouts, proposals, parts and the slice 'locked on A, valid A/B, proposal block none/A/B' for votes",
+        "slices": "quick entries cover the pre-state slice 'locked on A, valid block A, proposal block none/A, no proposal message, votes of the current height for nil/A/B' for votes (R=1, and R=2 with the node in round 2; plus the slice 'not locked, complete proposal block A with a proposal message of any POL round'), timeouts and parts, and every shape for txs-available; thorough entries cover every shape for timeouts, proposals and parts, both vote slices at R=1 ('locked on A, valid A/B, proposal block none/A/B' and 'not locked, any valid block, proposal block none/A/B/C'; together every shape, for votes of the current height for nil/A/B), and the lock-focus slice at R=2 for every round",
     },
     "stubs": _STEP_STUBS,
-    "outside": _STEP_OUT + ["vote events from the unlocked slice (run as VP_C02_Step_R1_vote_unlocked / VP_C02_Step_R1_vote, more than 250k paths: not completed within 30 minutes, not registered)"],
-    "timeout_quick": 600, "timeout_thorough": 3600,
+    "outside": _STEP_OUT + ["votes of the previous / next height and votes for our own proposal block C in the vote slices (covered only by the unsliced entry VP_C02_Step_R1_vote, > 250k paths, not registered)"],
+    "timeout_quick": 900, "timeout_thorough": 7200,
 }
 
 PROPS["C03"] = {
